@@ -94,6 +94,18 @@ def gen(chk):
             s.cycle(r, files, enforce=enforce, now=0)
             out.append(("clock-back", s, {"back_by": back, "enforce": enforce, "expect": "ok",
                                           "expect2": [14, 0] if enforce else "ok"}))
+    # (e) an earlier cycle succeeded on the same datastore; the same files are served again after one role's
+    #     expiration has passed (nothing new was published: the frozen repository)
+    for role in ROLES:
+        for m in (3600, 30 * DAY):
+            for enforce in (True, False):
+                s = scen.Scen()
+                exp = {r: (m if r == role else 400 * DAY) for r in ROLES}
+                r, files = repo(s, role == "snapshot", exp)
+                s.cycle(r, files, enforce=True, now=0)
+                s.cycle(r, files, enforce=enforce, now=m + 60)
+                out.append(("frozen-after-earlier-cycle", s, {"expired": [role], "after": m, "enforce": enforce, "expect": "ok",
+                                                             "expect2": [8, CODE[role]] if enforce else "ok"}))
     return out
 
 
@@ -101,7 +113,8 @@ def run(chk):
     chk.rule = ("(a) every subset of {root, timestamp, snapshot, targets} expired by 5 s / 1 h / 30 d / 5 y x both "
                 "enforcement settings, (b) rotation chains with expired intermediate or final roots, (c) clock "
                 "trajectories: forward jumps past the earliest expiry and backward jumps between read_target / "
-                "save_target calls on a loaded repository, (d) backward jumps between cycles; the clock is moved "
+                "save_target calls on a loaded repository, (d) backward jumps between cycles, (e) the same files served again "
+                "on the same datastore after one role's expiration has passed; the clock is moved "
                 "through the verif-hooks offset; non-trivial = something is expired or the clock moves; distinct "
                 "by scenario")
     chk.assumptions = ["the real clock is read (plus the hook's offset); margins of >= 5 s make the duration of a "
@@ -142,6 +155,15 @@ def run(chk):
             r2 = impl[1][0]
             if exp["enforce"] and r2[0] == 0:
                 chk.violation("the clock went back by %d s relative to the recorded time, yet the cycle succeeded" % exp["back_by"], full)
+            if not exp["enforce"] and r2[0] != 0:
+                chk.violation("enforcement is off but the cycle failed: %s" % r2, full)
+        if kind == "frozen-after-earlier-cycle":
+            r2 = impl[1][0]
+            if exp["enforce"] and r2[0] == 0:
+                chk.violation("expired %s metadata was trusted with enforcement on, in a cycle on a datastore an earlier "
+                              "cycle had filled" % exp["expired"], full)
+            elif exp["enforce"] and r2 != exp["expect2"]:
+                chk.broken("expected %s in the second cycle, got %s" % (exp["expect2"], r2), full)
             if not exp["enforce"] and r2[0] != 0:
                 chk.violation("enforcement is off but the cycle failed: %s" % r2, full)
         if kind == "trajectory" and res[0] == 0:
